@@ -223,8 +223,29 @@ def gen_constraint(ch: Choices, model: dict, alg: str, opts: dict) -> Optional[l
     raise ValueError(alg)
 
 
+def pad_model(model: dict, pad: int) -> dict:
+    """Prepend `pad` instantiated, unconstrained shared domains (and their variables): the search is unchanged but
+    every real domain / variable index moves beyond `pad` (8-bit and 16-bit index widths of the engine)."""
+    m = dict(model)
+    m["shr"] = [[0, 0] for _ in range(pad)] + [list(d) for d in model["shr"]]
+    m["idx"] = list(range(pad)) + [i + pad for i in model["idx"]]
+    m["off"] = [0] * pad + list(model["off"])
+    m["props"] = [[[v + pad for v in vs], alg, list(params)] for vs, alg, params in model["props"]]
+    return m
+
+
 def gen_model(ch: Choices, opts: Optional[dict] = None) -> dict:
     opts = dict(opts or {})
+    if opts.get("pad_chance") and ch.chance(1, opts["pad_chance"], "pad"):
+        pad = [254, 255, 256, 257, 300][ch.choose(5, "pad.n")]
+        m = gen_model(ch, dict(opts, pad_chance=0))
+        fl = m.get("flavour")
+        if fl == "circuit":
+            return m  # successor values are indices: padding would change the meaning
+        m = pad_model(m, pad)
+        m["flavour"] = fl
+        m["padded"] = pad
+        return m
     fl = ch.weighted(opts.get("flavour_weights", [8, 2, 2]), "flavour")
     flavour = ["general", "bool", "circuit"][fl]
     if opts.get("nonneg") is None and ch.chance(1, 4, "nonneg"):
